@@ -390,4 +390,119 @@ Proof.
   eapply ec_trans; [apply (chain_iter n1 a j w Ha Hw Hj)|]. rewrite E. apply ec_sym. apply (chain_iter n2 b j w Hb (eq_sym Hwb) Hj).
 Qed.
 End Chain.
+
+(* ---- every old connection is still joined by the new ones ---- *)
+Lemma pr_sem_fwd x y : valid d x -> Nets.step d x = Ok y -> ec1 x y.
+Proof.
+  intros Hv Hs. destruct x as [p s k|p i e port k|p s k]; [| |destruct Hv].
+  - (* a signal bit steps the same way: ports and hierarchy are unchanged *)
+    pose proof (pr_valid_fwd _ Hv) as Hv1. destruct Hv as [m [w [Hm [Hsw Hk]]]]. destruct p as [|[i e] p0].
+    + cbn [Nets.step] in Hs. inversion Hs; subst. apply ec_refl.
+    + rewrite (step_sig_up d i e p0 s k m (vmod_at_mod_at _ _ _ Hm)) in Hs. inversion Hs; subst y; clear Hs.
+      destruct (pr_vmod_fwd _ m Hm) as [m' [Hm' HR]]. apply ec_step; [exact Hv1|].
+      rewrite (step_sig_up d1 i e p0 s k m' (vmod_at_mod_at _ _ _ Hm')).
+      destruct (pr_parts m m' HR) as [k0 [keys [allocs [names [insts1 [_ [_ [_ [_ [_ [_ [_ [_ ->]]]]]]]]]]]]]. reflexivity.
+  - pose proof (pr_valid_fwd _ Hv) as Hv1. destruct Hv as [m [x [w [Hm [Hf [He [Hw Hk]]]]]]].
+    rewrite (step_port d p i e port k m x (vmod_at_mod_at _ _ _ Hm) Hf) in Hs.
+    destruct (local_tgt d m x e port k) as [t0|] eqn:Et0; cbn [bind] in Hs; [|discriminate]. inversion Hs; subst y; clear Hs.
+    destruct (pr_vmod_fwd _ m Hm) as [m' [Hm' HR]].
+    destruct (pr_parts m m' HR) as [k0 [keys [allocs [names [insts1 [Hk0 [Hwm [Hfrag [Hpw [Hkeys [Hplan [Hnames [Hins ->]]]]]]]]]]]]].
+    destruct (find_inst_In _ _ _ Hf) as [Hx _]. destruct (Forall2_In_l _ _ _ x Hins Hx) as [x1 [Hx1 Hr]].
+    destruct (rewrite_inst_inv m keys allocs names x x1 Hr) as [Hn1 [Hnn1 [Ho1 _]]].
+    assert (find_inst (m_insts (m1 m allocs names insts1)) i = Some x1) as Hf1.
+    { destruct (find_inst_Forall2 _ _ _ i x Hins) as [x1' [Hf1' Hr']]; [intros a b H; apply rewrite_inst_inv in H; symmetry; tauto|exact Hf|].
+      rewrite Hr in Hr'. inversion Hr'; subst x1'. exact Hf1'. }
+    pose proof (pr_fwd d (ncnames xi m) k0 m Hwm Hfrag Hpw keys allocs names Hkeys Hplan Hnames insts1 Hins x x1 e port k w t0 Hx Hr He Hw Hk Et0) as F.
+    assert (forall xa xa1 pa, i_of xa1 = i_of xa -> In xa (m_insts m) -> port_width d1 xa1 pa = port_width d xa1 pa) as Hpwe.
+    { intros xa xa1 pa Hoa Hxa. destruct (wf_module_inv _ _ _ Hwm) as [_ [_ [_ Hi]]]. destruct (wf_inst_inv _ _ _ _ (Hi xa Hxa)) as [_ [ports [Hp _]]].
+      unfold port_width. rewrite Hoa, (pr_target_ports _ _ Hp), Hp. reflexivity. }
+    destruct t0 as [s j|i' p' j|]; cbn [ltgt_node].
+    + apply ec_step; [exact Hv1|]. rewrite (step_port d1 p i e port k _ x1 (vmod_at_mod_at _ _ _ Hm') Hf1).
+      rewrite (local_tgt_d1 _ x1 e port k (Hpwe x x1 port Ho1 Hx)), F. reflexivity.
+    + destruct F as [xq [xq1 [s1 [j1 [wq [Hfq [Hsq [Hrq [Hwq [Hj [F1 F2]]]]]]]]]]].
+      destruct (find_inst_In _ _ _ Hfq) as [Hxq _]. destruct (rewrite_inst_inv m keys allocs names xq xq1 Hrq) as [_ [Hnnq [Hoq _]]].
+      assert (find_inst (m_insts (m1 m allocs names insts1)) i' = Some xq1) as Hfq1.
+      { destruct (find_inst_Forall2 _ _ _ i' xq Hins) as [x1' [Hf1' Hr']]; [intros a b H; apply rewrite_inst_inv in H; symmetry; tauto|exact Hfq|].
+        rewrite Hrq in Hr'. inversion Hr'; subst x1'. exact Hf1'. }
+      assert (valid d (NPort p i' 0 p' j)) as Hvy.
+      { exists m, xq, wq. split; [exact Hm|]. split; [exact Hfq|]. split; [unfold elem_ok; unfold single in Hsq; rewrite Hsq; reflexivity|]. auto. }
+      eapply ec_trans; [apply ec_step; [exact Hv1|]|apply ec_sym; apply ec_step; [apply pr_valid_fwd; exact Hvy|]].
+      * rewrite (step_port d1 p i e port k _ x1 (vmod_at_mod_at _ _ _ Hm') Hf1).
+        rewrite (local_tgt_d1 _ x1 e port k (Hpwe x x1 port Ho1 Hx)), F1. reflexivity.
+      * rewrite (step_port d1 p i' 0 p' j _ xq1 (vmod_at_mod_at _ _ _ Hm') Hfq1).
+        rewrite (local_tgt_d1 _ xq1 0 p' j (Hpwe xq xq1 p' Hoq Hxq)), F2. reflexivity.
+    + apply ec_refl.
+Qed.
+
+(* ---- every new connection joins only what the old ones joined ---- *)
+Lemma pr_sem_bwd u v : valid d1 u -> Nets.step d1 u = Ok v -> ec0 (psi u) (psi v).
+Proof.
+  intros Hv1 Hs. pose proof (psi_valid _ Hv1) as Hvp. destruct u as [p s k|p i e port k|p s k]; [| |destruct Hv1].
+  - destruct Hv1 as [m' [w1 [Hm' [Hs' Hk]]]]. destruct p as [|[i e] p0].
+    + cbn [Nets.step] in Hs. inversion Hs; subst. apply ec_refl.
+    + rewrite (step_sig_up d1 i e p0 s k m' (vmod_at_mod_at _ _ _ Hm')) in Hs. inversion Hs; subst v; clear Hs.
+      destruct (is_port m' s) eqn:Ep; [|apply ec_refl].
+      destruct (pr_vmod_bwd _ m' Hm') as [m [Hm HR]].
+      destruct (pr_parts m m' HR) as [k0 [keys [allocs [names [insts1 [_ [_ [_ [_ [_ [_ [_ [_ ->]]]]]]]]]]]]].
+      assert (is_port m s = true) as Ep0 by exact Ep.
+      assert (exists w0, sig_width m s = Some w0) as [w0 Hw0].
+      { unfold is_port in Ep0. unfold sig_width. destruct (assoc s (m_ports m)); [eauto|discriminate]. }
+      assert (psi (NSig (((i, e) : pelem) :: p0) s k) = NSig (((i, e) : pelem) :: p0) s k) as Epsi by (cbn [psi]; rewrite Hm, Hw0; reflexivity).
+      rewrite Epsi in *. cbn [psi]. apply ec_step; [exact Hvp|].
+      rewrite (step_sig_up d i e p0 s k m (vmod_at_mod_at _ _ _ Hm)), Ep0. reflexivity.
+  - cbn [psi] in *. destruct Hv1 as [m' [x1 [w [Hm' [Hf1 [He1 [Hw1 Hk]]]]]]].
+    destruct (pr_vmod_bwd _ m' Hm') as [m [Hm HR]].
+    destruct (pr_parts m m' HR) as [k0 [keys [allocs [names [insts1 [Hk0 [Hwm [Hfrag [Hpw [Hkeys [Hplan [Hnames [Hins ->]]]]]]]]]]]]].
+    cbn [m1 m_insts] in Hf1.
+    destruct (find_inst_Forall2 _ _ _ i x1 (Forall2_flip _ _ _ Hins)) as [x [Hf Hr]]; [intros a b H; apply rewrite_inst_inv in H; tauto|exact Hf1|].
+    cbv beta in Hr. destruct (find_inst_In _ _ _ Hf) as [Hx _]. destruct (rewrite_inst_inv m keys allocs names x x1 Hr) as [Hn1 [Hnn1 [Ho1 _]]].
+    assert (forall xa xa1 pa, i_of xa1 = i_of xa -> In xa (m_insts m) -> port_width d1 xa1 pa = port_width d xa1 pa) as Hpwe.
+    { intros xa xa1 pa Hoa Hxa. destruct (wf_module_inv _ _ _ Hwm) as [_ [_ [_ Hi]]]. destruct (wf_inst_inv _ _ _ _ (Hi xa Hxa)) as [_ [ports [Hp _]]].
+      unfold port_width. rewrite Hoa, (pr_target_ports _ _ Hp), Hp. reflexivity. }
+    assert (port_width d x port = Ok w) as Hw.
+    { rewrite (Hpwe x x1 port Ho1 Hx) in Hw1. unfold port_width in *. rewrite Ho1 in Hw1. exact Hw1. }
+    assert (elem_ok x e = true) as He by (unfold elem_ok in *; rewrite <- Hnn1; exact He1).
+    rewrite (step_port d1 p i e port k _ x1 (vmod_at_mod_at _ _ _ Hm') Hf1) in Hs.
+    rewrite (local_tgt_d1 _ x1 e port k (Hpwe x x1 port Ho1 Hx)) in Hs.
+    destruct (pr_bwd d (ncnames xi m) k0 m Hwm Hfrag Hpw keys allocs names Hkeys Hplan Hnames insts1 p x x1 e port k w Hx Hr He Hw Hk)
+      as [s1 [j1 [Hlt1 Hcases]]].
+    rewrite Hlt1 in Hs. cbn [bind ltgt_node] in Hs. inversion Hs; subst v; clear Hs.
+    assert (forall xa ea pa ka wa s j, find_inst (m_insts m) (i_name xa) = Some xa -> elem_ok xa ea = true -> port_width d xa pa = Ok wa -> 0 <= ka < wa ->
+              local_tgt d m xa ea pa ka = Ok (LtSig s j) ->
+              Nets.step d (NPort p (i_name xa) ea pa ka) = Ok (NSig p s j) /\ psi (NSig p s j) = NSig p s j) as Hold.
+    { intros xa ea pa ka wa s j Hfa Hea Hwa Hka Hlt. split.
+      - rewrite (step_port d p _ ea pa ka m xa (vmod_at_mod_at _ _ _ Hm) Hfa), Hlt. reflexivity.
+      - destruct (find_inst_In _ _ _ Hfa) as [Hxa _].
+        destruct (local_tgt_total d k0 m xa ea pa ka wa Hwm (fun c Hc => Hfrag xa c Hxa Hc) Hxa Hea Hwa Hka) as [t [Ht Hval]].
+        rewrite Hlt in Ht. inversion Ht; subst t. destruct Hval as [ws [Hws _]]. cbn [psi]. rewrite Hm, Hws. reflexivity. }
+    assert (i = i_name x) as Ei by (destruct (find_inst_In _ _ _ Hf) as [_ H]; symmetry; exact H).
+    assert (psi (NSig p s1 j1) = match owner_node d m allocs names p s1 j1 with Some n' => n' | None => NSig p s1 j1 end \/ True) as _ by (right; exact I).
+    destruct Hcases as [Hsame|[[Hnone Hown]|[q [jj [wq [Ht0 [Hqk [Hkw [Hjj Hsub]]]]]]]]].
+    + subst i. destruct (Hold x e port k w s1 j1 Hf He Hw Hk Hsame) as [Hst Hps]. rewrite Hps. apply ec_step; [exact Hvp|exact Hst].
+    + cbn [psi]. rewrite Hm, Hnone, (pr_an_parts m allocs names keys Hkeys Hplan Hnames). cbn [fst snd]. rewrite Hown. subst i. apply ec_refl.
+    + (* through the port referred to *)
+      assert (Nets.step d (NPort p i e port k) = Ok (kbit p q jj)) as Hst.
+      { rewrite (step_port d p i e port k m x (vmod_at_mod_at _ _ _ Hm) Hf), Ht0. reflexivity. }
+      eapply ec_trans; [apply ec_step; [exact Hvp|exact Hst]|].
+      destruct Hsub as [[r [xr [Hrk [Cr [Hfxr Hltr]]]]]|[o [Hnone [-> [Hok [Co Hown]]]]]].
+      * eapply ec_trans; [apply (chain_conn p m k0 keys Hm Hwm Hfrag Hkeys q r jj wq Hqk Hrk Hkw Hjj Cr)|].
+        pose proof (conn_width d k0 m keys Hwm Hfrag Hkeys q r Hqk Hrk Cr) as Hwr. rewrite Hkw in Hwr. symmetry in Hwr.
+        assert (fst r = i_name xr) as Er by (destruct (find_inst_In _ _ _ Hfxr) as [_ H]; symmetry; exact H).
+        assert (port_width d xr (snd r) = Ok wq) as Hwr2 by (unfold key_width in Hwr; rewrite Hfxr in Hwr; cbn [ofopt bind] in Hwr; exact Hwr).
+        assert (elem_ok xr 0 = true) as Her.
+        { apply (keys_In d k0 m keys Hwm Hkeys) in Hrk. destruct Hrk as [xr' [w' [Hfxr' [Hsr _]]]]. rewrite Hfxr in Hfxr'. inversion Hfxr'; subst xr'.
+          unfold elem_ok. unfold single in Hsr. rewrite Hsr. reflexivity. }
+        rewrite Er in Hfxr. destruct (Hold xr 0 (snd r) jj wq s1 j1 Hfxr Her Hwr2 Hjj Hltr) as [Hstr Hps]. rewrite Hps.
+        unfold kbit. rewrite Er. apply ec_step; [|exact Hstr].
+        exists m, xr, wq. split; [exact Hm|]. split; [exact Hfxr|]. auto.
+      * cbn [psi]. rewrite Hm, Hnone, (pr_an_parts m allocs names keys Hkeys Hplan Hnames). cbn [fst snd]. rewrite Hown.
+        apply (chain_conn p m k0 keys Hm Hwm Hfrag Hkeys q o jj wq Hqk Hok Hkw Hjj Co).
+Qed.
+
+Theorem portrefs_same_net x y : valid d x -> valid d y -> (same_net d x y <-> same_net d1 x y).
+Proof.
+  intros Hx Hy. rewrite !same_net_meet_r.
+  apply (rewire_meet node (Nets.step d) (Nets.step d1) (valid d) (valid d1) psi
+           (step_total d Hwf Hfr) (wfs_step_total d1 pr_wfs1) pr_valid_fwd psi_id pr_sem_fwd pr_sem_bwd x y Hx Hy).
+Qed.
 End PRSem.
